@@ -11,6 +11,7 @@ func init() {
 			ruleAtomicFields(c)
 			ruleSyncFields(c)
 			rulePublish(c)
+			rulePoolLifetime(c)
 		},
 	})
 }
